@@ -73,9 +73,9 @@ Print Assumptions C14_prefer_code.
 (* ---------- refutations of the unrestricted statement (known findings) ---------- *)
 
 Definition mk_graph (slots : list (spec * slot)) (reds : list (spec * spec)) : graph :=
-  {| g_kind := KAll; g_roots := []; g_slots := slots; g_redirects := reds; g_imports := []; g_schemes := [] |}.
+  {| g_kind := KAll; g_roots := []; g_slots := slots; g_redirects := reds; g_imports := []; g_schemes := []; g_has_node := false; g_errkinds := [] |}.
 Definition plain_mod (s : spec) : slot :=
-  SMod {| m_kind := MkJs; m_spec := s; m_media := MTypeScript; m_deps := []; m_types_dep := None; m_fc_deps := None |}.
+  SMod {| m_kind := MkJs; m_spec := s; m_media := MTypeScript; m_deps := []; m_types_dep := None; m_fc_deps := None; m_dts := false |}.
 
 (* F-C14a: on a redirect cycle resolve is not idempotent *)
 Theorem C14_cycle_refuted : exists g s, resolve g (resolve g s) <> resolve g s.
@@ -110,7 +110,7 @@ Print Assumptions C14_specifiers_two_hops_refuted.
 Definition shadow : graph := mk_graph [(2, SErr (Some 2) 9); (3, plain_mod 3)] [(1, 2); (2, 3)].
 Theorem C14_shadow_refuted :
   walk_end shadow 1 = Some 2 /\ try_get shadow 1 = TOkMod {| m_kind := MkJs; m_spec := 3; m_media := MTypeScript;
-                                                            m_deps := []; m_types_dep := None; m_fc_deps := None |}.
+                                                            m_deps := []; m_types_dep := None; m_fc_deps := None; m_dts := false |}.
 Proof. split; vm_compute; reflexivity. Qed.
 Print Assumptions C14_shadow_refuted.
 
